@@ -2,6 +2,7 @@ import TongoProofs.Lemmas.WalletMsg
 import TongoProofs.Lemmas.HighloadDict
 import TongoProofs.Lemmas.WalletExt
 import TongoProofs.Lemmas.WalletInt
+import TongoProofs.Lemmas.WalletExtra
 import TongoProofs.Lemmas.SigIdeal
 import TongoProofs.Lemmas.HashTree
 import TongoProofs.Lemmas.CellOrdSpec
@@ -199,10 +200,14 @@ theorem verify_own_key (sign : List UInt8 → List UInt8 → List UInt8) (verify
 
 /-! ### no other key, no changed bit — under the ideal signature scheme and a collision-free hash
 
-The negative clauses of the property. `Sig.Ideal sign verify pub` (`TongoProofs/Lemmas/SigIdeal.lean`: `SigCorrect`,
-`SigUnforgeable` — whatever verifies was produced by `sign` under a secret key of that public key —, `SigBinds` — a
-signature determines signer and digest) and `CollisionFree H` on the representations of the cells of the two body trees
-are LOCAL hypotheses, the named idealisations of DESIGN §5.3. The accept-all verifier does not satisfy them
+The negative clauses of the property. `Sig.Ideal sign verify pub` (`TongoProofs/Lemmas/SigIdeal.lean`: `SigCorrect` and
+`SigSound` — a genuine signature verifies, among HONESTLY GENERATED keys `pub sk'` and 32-byte digests, only for its
+signer's key and its own digest) and `CollisionFree H` on the representations of the cells of the two body trees are
+LOCAL hypotheses, idealisations (DESIGN §5.3), stated for honestly generated keys only: "no other key" reads "no other
+honestly generated key". For other 32-byte strings nothing is claimed and nothing holds of the real scheme (Go's Ed25519
+accepts a fixed signature for every message under the small-order key `01 00 … 00`: oracle `go.ed.smallorder`;
+`Sig.toy_dishonest_key_accepts_all`). `verified_was_signed` alone additionally uses `SigUnforgeable` (strong
+unforgeability + deterministic signer, under honest keys). The accept-all verifier does not satisfy the hypotheses
 (`Sig.accept_all_violates`), a toy scheme does (`Sig.toy_ideal`, instantiated at the end of this file). -/
 
 /-- The shape of every built message (v3, v4, v5r1, v5 beta): the envelope around the signed layout with the signature
@@ -253,33 +258,34 @@ theorem built_message_is_attached_highload (sign : List UInt8 → List UInt8 →
     subst hmsg hbody hdg
     exact ⟨layout, hl, hty, hmask, hdc, rfl⟩
 
-/-- What `VerifySignature` accepts was signed: if the envelope around ANY body — any 64-byte string `sig` attached to
-any ordinary cell `c`, which is what every ordinary body cell with at least 512 bits is (`body_is_attached`) — verifies
-against a 32-byte key `pk`, then `pk` is the public key of a secret key that produced `sig` as the signature of the hash
-of `c`. For every version, including v5 (signature in the last 512 bits) and highload. -/
+/-- What `VerifySignature` accepts under an HONESTLY GENERATED key was signed: if the envelope around ANY body — any
+64-byte string `sig` attached to any ordinary cell `c`, which is what every ordinary body cell with at least 512 bits is
+(`body_is_attached`) — verifies against `pub sk0`, then `sig` is the signature of the hash of `c` under a secret key of
+that public key. For every version, including v5 (signature in the last 512 bits) and highload. (Uses `SigUnforgeable`,
+the strongest idealisation; false of the real scheme for keys that are not honestly generated, see `Lemmas/SigIdeal.lean`.) -/
 theorem verified_was_signed (sign : List UInt8 → List UInt8 → List UInt8) (verify : List UInt8 → List UInt8 → List UInt8 → Bool)
     (pub : List UInt8 → List UInt8) (hu : Sig.SigUnforgeable sign verify pub)
     (v : Version) (hv : v.family ≠ .v1v2) (sig : List UInt8) (hs : sig.length = 64)
     (c : Cell) (hty : c.ty = 0) (hmask : c.mask = 0) (hdc : c.depthO ≤ maxDepth)
     (self : Address) (hh : self.hash.length = 32) (code data : Cell) (withInit : Bool)
     (hdep : (envelope self (attached v sig c) (if withInit then some (stateInitCell code data) else none)).depthO ≤ maxDepth)
-    (pk : List UInt8) (hpk : pk.length = 32)
-    (hok : verifySignature H verify v (envelope self (attached v sig c) (if withInit then some (stateInitCell code data) else none)) pk = .ok true) :
-    ∃ sk, pk = pub sk ∧ sig = sign sk (c.hashO H) := by
-  rw [verifySignature_envelope H verify v hv sig hs c hty hmask hdc self hh code data withInit hdep pk hpk] at hok
+    (sk0 : List UInt8) (hpk : (pub sk0).length = 32)
+    (hok : verifySignature H verify v (envelope self (attached v sig c) (if withInit then some (stateInitCell code data) else none)) (pub sk0) = .ok true) :
+    ∃ sk, pub sk = pub sk0 ∧ sig = sign sk (c.hashO H) := by
+  rw [verifySignature_envelope H verify v hv sig hs c hty hmask hdc self hh code data withInit hdep (pub sk0) hpk] at hok
   simp only [Outcome.ok.injEq] at hok
-  exact hu pk _ sig hok
+  exact hu sk0 _ sig hok
 
 /-- **No other key.** The envelope around a cell `c` signed with `sk` (any version but v1/v2; this is the shape of
 every built message, `built_message_is_attached(_highload)`) is REJECTED (`ErrBadSignature`) by `VerifySignature` for
-every 32-byte key other than `pub sk`. -/
+every other HONESTLY GENERATED 32-byte key (`pk' = pub sk'` for some `sk'`, `pk' ≠ pub sk`). -/
 theorem verify_rejects_other_key_attached (hlen : ∀ x, (H x).length = 32) (sign : List UInt8 → List UInt8 → List UInt8)
     (verify : List UInt8 → List UInt8 → List UInt8 → Bool) (pub : List UInt8 → List UInt8) (I : Sig.Ideal sign verify pub)
     (hsl : ∀ sk m, (sign sk m).length = 64) (sk : List UInt8)
     (v : Version) (hv : v.family ≠ .v1v2) (c : Cell) (hty : c.ty = 0) (hmask : c.mask = 0) (hdc : c.depthO ≤ maxDepth)
     (self : Address) (hh : self.hash.length = 32) (code data : Cell) (withInit : Bool)
     (hdep : (envelope self (attached v (sign sk (c.hashO H)) c) (if withInit then some (stateInitCell code data) else none)).depthO ≤ maxDepth)
-    (pk' : List UInt8) (hpk' : pk'.length = 32) (hne : pk' ≠ pub sk) :
+    (pk' : List UInt8) (hpk' : pk'.length = 32) (hhon : Sig.Honest pub pk') (hne : pk' ≠ pub sk) :
     verifySignature H verify v
       (envelope self (attached v (sign sk (c.hashO H)) c) (if withInit then some (stateInitCell code data) else none)) pk' = .ok false := by
   rw [verifySignature_envelope H verify v hv _ (hsl _ _) c hty hmask hdc self hh code data withInit hdep pk' hpk']
@@ -287,10 +293,11 @@ theorem verify_rejects_other_key_attached (hlen : ∀ x, (H x).length = 32) (sig
   | false => rfl
   | true =>
     have hd : (c.hashO H).length = 32 := by rw [Cell.hashO_eq_H_reprO]; exact hlen _
-    exact absurd (I.verify_sound sk pk' _ _ hd hd hvf).1 hne
+    exact absurd (I.verify_sound sk pk' _ _ hhon hd hd hvf).1 hne
 
 /-- **No other key**, on the message the wallet builds (v3, v4, v5r1, v5 beta; any ids, seqno, expiry, messages within
-the limit, with or without state init): `VerifySignature` answers `ErrBadSignature` for every other 32-byte key. -/
+the limit, with or without state init): `VerifySignature` answers `ErrBadSignature` for every other honestly generated
+32-byte key. -/
 theorem verify_rejects_other_key (hlen : ∀ x, (H x).length = 32) (sign : List UInt8 → List UInt8 → List UInt8)
     (verify : List UInt8 → List UInt8 → List UInt8 → Bool) (pub : List UInt8 → List UInt8) (I : Sig.Ideal sign verify pub)
     (hsl : ∀ sk m, (sign sk m).length = 64) (sk : List UInt8)
@@ -300,12 +307,12 @@ theorem verify_rejects_other_key (hlen : ∀ x, (H x).length = 32) (sign : List 
     (hbody : createSignedBody H sign sk v ids op seqno vu rnd msgs = .ok body)
     (hmsg : extMessage self body (if withInit then some (stateInitCell code data) else none) = .ok msg)
     (hdep : msg.depthO ≤ maxDepth) (hdepL : (signedLayout v ids op seqno vu msgs).depthO ≤ maxDepth)
-    (pk' : List UInt8) (hpk' : pk'.length = 32) (hne : pk' ≠ pub sk) :
+    (pk' : List UInt8) (hpk' : pk'.length = 32) (hhon : Sig.Honest pub pk') (hne : pk' ≠ pub sk) :
     verifySignature H verify v msg pk' = .ok false := by
   obtain ⟨hm, hty, hmask⟩ := built_message_is_attached H sign hsl sk v hf ids op seqno vu rnd msgs hn self hh _ body msg hbody hmsg hdepL
   have hv : v.family ≠ .v1v2 := by rcases hf with h | h | h | h <;> simp [h]
   subst hm
-  exact verify_rejects_other_key_attached H hlen sign verify pub I hsl sk v hv _ hty hmask hdepL self hh code data withInit hdep pk' hpk' hne
+  exact verify_rejects_other_key_attached H hlen sign verify pub I hsl sk v hv _ hty hmask hdepL self hh code data withInit hdep pk' hpk' hhon hne
 
 /-- **No other key**, highload wallet. -/
 theorem verify_rejects_other_key_highload (hlen : ∀ x, (H x).length = 32) (sign : List UInt8 → List UInt8 → List UInt8)
@@ -315,19 +322,19 @@ theorem verify_rejects_other_key_highload (hlen : ∀ x, (H x).length = 32) (sig
     (self : Address) (hh : self.hash.length = 32) (code data : Cell) (withInit : Bool) (body msg : Cell)
     (hbody : createSignedBody H sign sk .highloadV2R2 ids op seqno vu rnd msgs = .ok body)
     (hmsg : extMessage self body (if withInit then some (stateInitCell code data) else none) = .ok msg)
-    (hdep : msg.depthO ≤ maxDepth) (pk' : List UInt8) (hpk' : pk'.length = 32) (hne : pk' ≠ pub sk) :
+    (hdep : msg.depthO ≤ maxDepth) (pk' : List UInt8) (hpk' : pk'.length = 32) (hhon : Sig.Honest pub pk') (hne : pk' ≠ pub sk) :
     verifySignature H verify .highloadV2R2 msg pk' = .ok false := by
   obtain ⟨layout, _, hty, hmask, hdc, hmsg'⟩ :=
     built_message_is_attached_highload H sign hsl sk ids op seqno vu rnd msgs hn hm self hh _ body msg hbody hmsg
   subst hmsg'
   exact verify_rejects_other_key_attached H hlen sign verify pub I hsl sk .highloadV2R2 (by decide) layout hty hmask hdc self hh code data
-    withInit hdep pk' hpk' hne
+    withInit hdep pk' hpk' hhon hne
 
 /-- **No changed bit.** Take the signature the wallet made for the signed cell `c` and attach it to ANY other tree of
 ordinary cells `c'` — one that differs from `c` in a bit, in the number of refs, or in any bit of any cell at any depth
 below it: the envelope is REJECTED under the wallet's own key, for every version (signature in front or in the last 512
 bits; highload's dictionary included: `c`, `c'` are arbitrary trees). Through `Cell.hashO_tree_inj` (collision-freedom on
-the representations of the cells of the two trees), `SigUnforgeable` and `SigBinds`. -/
+the representations of the cells of the two trees) and `SigSound` (the wallet's own key is honestly generated). -/
 theorem verify_rejects_changed_body (hlen : ∀ x, (H x).length = 32) (sign : List UInt8 → List UInt8 → List UInt8)
     (verify : List UInt8 → List UInt8 → List UInt8 → Bool) (pub : List UInt8 → List UInt8) (I : Sig.Ideal sign verify pub)
     (hsl : ∀ sk m, (sign sk m).length = 64) (sk : List UInt8) (hpk : (pub sk).length = 32)
@@ -345,7 +352,7 @@ theorem verify_rejects_changed_body (hlen : ∀ x, (H x).length = 32) (sign : Li
   | true =>
     have hd : (c.hashO H).length = 32 := by rw [Cell.hashO_eq_H_reprO]; exact hlen _
     have hd' : (c'.hashO H).length = 32 := by rw [Cell.hashO_eq_H_reprO]; exact hlen _
-    have heq := (I.verify_sound sk (pub sk) _ _ hd hd' hvf).2
+    have heq := (I.verify_sound sk (pub sk) _ _ ⟨sk, rfl⟩ hd hd' hvf).2
     exact absurd (Cell.hashO_inj_of_collisionFree H hlen c c' hw hw' cf heq.symm).symm hne
 
 /-- **No changed bit**, on the message the wallet builds (v3, v4, v5r1, v5 beta): the built message is the envelope
@@ -619,6 +626,22 @@ theorem too_many_refused (loop : Nat → Nat → List Poll → Bool) (v : Versio
 
 /-! ### defects repaired, as negations about the code before the repair -/
 
+/-- **Extra currencies** (`SimpleTransfer.ExtraCurrency`): what `ToInternal` puts into the value of the outgoing message —
+`hme_empty$0` for none, otherwise `hme_root$1` and a dictionary `HashmapE 32 (VarUInteger 32)` keyed by `uint32(id)` — is
+read back by the `ExtraCurrencyCollection` decoder at that position as exactly the requested (id, amount) pairs, in
+ascending id order; the builder can only succeed when the ids are pairwise distinct. (Field-level composition through
+the dictionary theorems of C05; the whole-message layout theorems `internal_message_layout` / `carried_init_is_requested`
+are stated for messages WITHOUT extra currencies; with them the whole message is compared with Go by `m.int` /
+`m.intdec` and the oracle `go.m.modes` on every run.) -/
+theorem extra_currencies_carried (b : CellB) (extra : List (Nat × Nat)) (hne : extra ≠ []) (hid : ∀ p ∈ extra, p.1 < 2 ^ 32)
+    (hamt : ∀ p ∈ extra, byteLen p.2 ≤ 31) (b' : CellB) (h : writeExtra b extra = .ok b') (rest : List Bool) (refs : List Cell) :
+    ∃ d, b' = { bits := b.bits ++ [true], refs := b.refs ++ [d] } ∧
+      (Hashmap.keysOf (extraKvs extra)).Nodup ∧
+      readExtra { bits := true :: rest, refs := d :: refs } =
+        .ok ((Hashmap.sortKV (extraKvs extra)).map (fun kv => (bitsToNat kv.1, kv.2)), { bits := rest, refs := refs }) := by
+  obtain ⟨d, hd, hb, hr⟩ := (extra_currencies_roundtrip b extra hid hamt b' h rest refs).2 hne
+  exact ⟨d, hb, (extra_dict_roundtrip extra hne hid hamt d hd).1, hr⟩
+
 /-- Both sides of the boundary: a batch of EXACTLY the version's maximum (4 for v3/v4, 254 for v5 beta and highload,
 255 for v5r1) — and every smaller one — passes the guard and is sent (one message, to the wallet's own address); one
 more is refused with nothing sent. -/
@@ -649,11 +672,11 @@ theorem v5beta_unverifiable_before_fix (verify : List UInt8 → List UInt8 → L
 
 /-! ### outgoing messages and the state init they carry -/
 
-/-- `ToInternal` + marshalling of a requested message (32-byte address, `uint64` amount) never overflows a cell and
+/-- `ToInternal` + marshalling of a requested message (32-byte address, `uint64` amount, no extra currencies) never overflows a cell and
 returns the written-out layout: the state init is attached, by reference, exactly when code AND data are given. -/
-theorem internal_message_layout (m : OutMsg) (hh : m.dest.hash.length = 32) (ha : m.amount < 2 ^ 64) :
+theorem internal_message_layout (m : OutMsg) (hh : m.dest.hash.length = 32) (ha : m.amount < 2 ^ 64) (hx : m.extra = []) :
     internalMsg m = .ok (internalLayout m) ∧ (internalLayout m).refs.length = m.init.toList.length + m.body.toList.length := by
-  refine ⟨internalMsg_ok m hh ha, ?_⟩
+  refine ⟨internalMsg_ok m hh ha hx, ?_⟩
   simp [internalLayout, Cell.ordinary, Cell.refs]
   cases m.body <;> simp
 
@@ -702,8 +725,8 @@ theorem deploy_address_is_carried_init_hash (hlen : ∀ x, (H x).length = 32) (w
       rw [← hh]; simp [stateInitCell, Cell.ordinary, Cell.hashO, hlen]
     · simp at hh
   obtain ⟨x, hx, _, hcell, hcode, hdata, _, _, hdest⟩ :=
-    carried_init_is_requested ⟨true, ⟨wc, h⟩, amount, body, some c, some d, 3⟩ c d rfl rfl hl ha hdep
-  exact ⟨internalMsg_ok _ hl ha, rfl, x, _, hx, hcell, hcode, hdata, hh, hdest⟩
+    carried_init_is_requested ⟨true, ⟨wc, h⟩, amount, body, some c, some d, 3, []⟩ c d rfl rfl hl ha hdep
+  exact ⟨internalMsg_ok _ hl ha rfl, rfl, x, _, hx, hcell, hcode, hdata, hh, hdest⟩
 
 /-- Only one of code / data: `ContractDeploy` refuses. -/
 theorem deploy_needs_code_and_data (wc : Int) (code data body : Option Cell) (amount : Nat) (h : code = none ∨ data = none) :
@@ -722,30 +745,30 @@ example : SigCorrect (fun sk m => (sk ++ m ++ List.replicate 64 0).take 64) (fun
   · intro sk m; simp
   · intro sk m; simp; omega
 
-/-- non-vacuity of the negative clauses: the toy ideal scheme (`Sig.toy_ideal`: correct, unforgeable, binding, 64-byte
-signatures, 32-byte keys), the "hash" `pad32` (32-byte outputs) which is collision-free on the representations of two
+/-- non-vacuity of the negative clauses: the toy ideal scheme (`Sig.toy_ideal`: correct, sound, 64-byte
+signatures, 32-byte keys — and accepting everything under a key that is not honestly generated), the "hash" `pad32` (32-byte outputs) which is collision-free on the representations of two
 one-bit cells that differ in that bit, both trees of ordinary cells -/
 example : Sig.Ideal Sig.toySign Sig.toyVerify Sig.toyPub ∧ (∀ sk m, (Sig.toySign sk m).length = 64) ∧
     (∀ x, (Sig.pad32 x).length = 32) ∧
     (Cell.ordinary [true] []).wfOrd = true ∧ (Cell.ordinary [false] []).wfOrd = true ∧
     Cell.ordinary [false] [] ≠ Cell.ordinary [true] [] ∧
     CollisionFree Sig.pad32 (Cell.reprs Sig.pad32 (Cell.ordinary [true] []) ++ Cell.reprs Sig.pad32 (Cell.ordinary [false] [])) := by
-  refine ⟨Sig.toy_ideal.1, Sig.toy_ideal.2.1, Sig.pad32_length, by decide, by decide, by simp [Cell.ordinary], ?_⟩
+  refine ⟨Sig.toy_ideal.1, Sig.toy_ideal.2.2.1, Sig.pad32_length, by decide, by decide, by simp [Cell.ordinary], ?_⟩
   intro x hx y hy h
   simp only [Cell.reprs, Cell.ordinary, Cell.reprsList, List.append_nil, List.cons_append, List.nil_append, List.mem_cons,
     List.not_mem_nil, or_false] at hx hy
   rcases hx with rfl | rfl <;> rcases hy with rfl | rfl
   · rfl
   · exfalso; revert h
-    simp [Sig.pad32, reprNoRefs, toppedUp, addTag, bitsToBytes, d1, d2, bitsToNat, Cell.depthsO, Cell.hashesO]
+    simp [Sig.pad32, Sig.pad, reprNoRefs, toppedUp, addTag, bitsToBytes, d1, d2, bitsToNat, Cell.depthsO, Cell.hashesO]
   · exfalso; revert h
-    simp [Sig.pad32, reprNoRefs, toppedUp, addTag, bitsToBytes, d1, d2, bitsToNat, Cell.depthsO, Cell.hashesO]
+    simp [Sig.pad32, Sig.pad, reprNoRefs, toppedUp, addTag, bitsToBytes, d1, d2, bitsToNat, Cell.depthsO, Cell.hashesO]
   · rfl
 
 /-- the accept-all verifier, which satisfies `SigCorrect`, is excluded by the hypotheses of the negative clauses -/
-example (sign : List UInt8 → List UInt8 → List UInt8) (pub : List UInt8 → List UInt8) (hsl : ∀ sk m, (sign sk m).length = 64) :
+example (sign : List UInt8 → List UInt8 → List UInt8) (pub : List UInt8 → List UInt8) :
     SigCorrect sign (fun _ _ _ => true) pub ∧ ¬ Sig.Ideal sign (fun _ _ _ => true) pub :=
-  ⟨fun _ _ => rfl, fun I => Sig.accept_all_violates sign pub hsl I.unforgeable⟩
+  ⟨fun _ _ => rfl, fun I => Sig.accept_all_violates sign pub I.sound⟩
 
 /-- non-vacuity of `decode_build`'s premises: a v4r2 wallet, two messages -/
 example : (Version.v4r2).family = .v4 ∧ ({ subWallet := 698983191 } : BodyIds).WF ∧
